@@ -319,8 +319,19 @@ sexp sexp_sort_x (sexp ctx, sexp self, sexp_sint_t n, sexp seq,
     if (sexp_not(key) && sexp_basic_comparator(less)) {
       sexp_merge_sort(ctx, sexp_vector_data(vec), sexp_vector_data(scratch),
                       0, len-1);
-      if (sexp_opcodep(less) && sexp_opcode_inverse(less))
+      if (sexp_opcodep(less) && sexp_opcode_inverse(less)) {
+        sexp_sint_t i, j, k;
+        sexp tmp, *data = sexp_vector_data(vec);
         sexp_vector_nreverse(ctx, vec);
+        /* reversing also reversed the runs of equal elements: restore */
+        /* their original order so the sort stays stable */
+        for (i=0; i<len; i=j) {
+          for (j=i+1; j<len && sexp_object_compare(ctx, data[i], data[j], COMPARE_DEPTH) == 0; j++)
+            ;
+          for (k=j-1; i<k; i++, k--)
+            swap(tmp, data[i], data[k]);
+        }
+      }
       res = vec;
     } else if (! (sexp_procedurep(less) || sexp_opcodep(less))) {
       res = sexp_type_exception(ctx, self, SEXP_PROCEDURE, less);
